@@ -58,6 +58,7 @@ type Config struct {
 	PDupResp    float64  `json:"p_dup_response"`
 	PLateResp   float64  `json:"p_late_response"`
 	PEdgeResp   float64  `json:"p_expiry_block_response"`
+	PBurst      float64  `json:"p_answer_whole_batch,omitempty"`
 	PStranger   float64  `json:"p_stranger"`
 	PParam      float64  `json:"p_param_change"`
 	PDrain      float64  `json:"p_drain"`
@@ -258,6 +259,7 @@ func (m *Module) Configure(w *engine.World, r *engine.Rand) any {
 	c.PDupResp = 0.15 * r.Float()
 	c.PLateResp = 0.15 * r.Float()
 	c.PEdgeResp = 0.3 * r.Float()
+	c.PBurst = []float64{0, 0.3, 0.7}[r.Intn(3)]
 	c.PStranger = 0.25 * r.Float()
 	if r.Bool(0.5) {
 		c.PParam = 0.04 * r.Float()
@@ -275,6 +277,21 @@ func (m *Module) Configure(w *engine.World, r *engine.Rand) any {
 	c.BindRate = 0.6 + 0.4*r.Float()
 	c.MultiMsg = 0.1 * r.Float()
 	c.ForeignBind = 0.03
+	if w.Focus == "C11" && r.Bool(0.6) {
+		// a well-kept provider set: in runs shared by a dozen workloads most requests would
+		// otherwise expire, the providers be slashed out of service and the feeds built on them
+		// never see a batch with several answers
+		c.Params.Slash = "0"
+		c.Services = c.Services[:1]
+		for len(c.Slots) < 4 && len(c.Slots) < n-1 {
+			i := len(c.Slots)
+			c.Slots = append(c.Slots, Slot{Actor: 1 + i, Owner: i % nOwn})
+		}
+		for i := range c.Slots {
+			c.Slots[i].Answer = 1
+		}
+		c.PBurst, c.BindRate, c.PParam = 0.8, 1, 0
+	}
 	return c
 }
 
